@@ -5,6 +5,7 @@ from cv import flow, rules, taint
 from cv.rules import events_of
 
 TITLE = "The archive is a pure function of the source and the operation history"
+TECHNIQUE = 'static analysis: taint from clock/random/environment to written bytes and names, frozen table of reviewed unordered iterations, no archive write reachable from a spawned task'
 EXPLANATION = (
     "Decided: (1) value nondeterminism (clock, random numbers, environment, process ids) is tracked with the "
     "summary-based taint analysis from its sources to every Transport::write / create_dir call: the only fields of a "
